@@ -296,6 +296,14 @@ class SpanQuery(Query):
     def needs_spans(self):
         return True
 
+    def estimate_size(self, ixreader):
+        # A span query matches a subset of the documents the wrapped query
+        # matches
+        return self.q.estimate_size(ixreader)
+
+    def estimate_min_size(self, ixreader):
+        return 0
+
 
 class WrappingSpan(SpanQuery):
     def is_leaf(self):
